@@ -27,7 +27,7 @@ INFO = {
     "and sha256(json.dumps(table_to_serializable)), the conflict report strings and the ordered list of forest[i].to_str() "
     "on ambiguous inputs must equal those of the first leaf.  In addition the same fingerprint is computed in fresh "
     "interpreters under PYTHONHASHSEED 0..15 (a plain native differential, reported as such).",
-    "bounds": {"quick": {"symbols": "<= 6 user symbols (720 permutations), 6 grammars incl. one with production priorities and one split over imported files"}, "thorough": {"symbols": "<= 6 (720 permutations), 8 grammars"}},
+    "bounds": {"quick": {"symbols": "5 ranked symbols per grammar (120 orders), 6 grammars incl. one with production priorities and one split over imported files"}, "thorough": {"symbols": "5 ranked symbols per grammar (120 orders), 10 grammars"}},
     "outside": "orders that only arise from hash collisions inside one set's table; SipHash itself is not modelled - the "
     "quantifier 'string hash is an arbitrary injective function' is; more than 6 symbols",
     "assumptions": ["module-level `hash` shim in parglare.grammar", "STOP/EMPTY/S' keep the worker process's real hash (workers run under different PYTHONHASHSEEDs)"],
@@ -124,6 +124,8 @@ def build(params, symbolic):
     names = symbol_names(text)
     if len(GRAMMARS[params["g"]]) > 2:
         names = [n for n in names if n in GRAMMARS[params["g"]][2]]  # ranks only for these; the others keep their real hash
+    if len(names) > 5:
+        names = names[:5]  # 6 symbols = 720 orders do not exhaust within budget (measured); ranks for 5, the rest keep their real hash
     k = len(names)
     twin = params.get("twin")
     first = {}
